@@ -107,9 +107,9 @@ def _trackbox(j):
     return Adt('Universal2DBox', 0, (f32(float(200 + j)), f32(0.0), NONE, f32(1.0), f32(1.0), f32(1.0), NONE))
 
 
-def mk_step(ndet, nstored, shards=1, aw_zero=False, lite=False, fork=False, maha=False):
+def mk_step(ndet, nstored, shards=1, aw_zero=False, lite=False, fork=False, maha=False, driver=None):
     def q(vm, P):
-        fn = P.impl_methods[('Sort', None, 'predict_with_scene')][0][0]
+        fn = P.impl_methods[('Sort', None, 'predict_with_scene')][0][0] if driver is None else None
         scene = vm.fresh(64, 'scene')
         # ---- options, epoch db: the call's scene and one other scene
         other_scene = vm.fresh(64, 'other_scene')
@@ -180,8 +180,13 @@ def mk_step(ndet, nstored, shards=1, aw_zero=False, lite=False, fork=False, maha
         if not aw_zero:
             vm.assume(awc.e != 0)
         awp = vm.fresh(64, 'aw_periodicity')
-        sort = Cell(mk(P, 'Sort', store=main.value, wasted_store=wasted.value, method=method, opts=Ref(opts),
-                       auto_waste=mk(P, 'AutoWaste', periodicity=awp, counter=awc), track_id=counter), 'sort')
+        counter_cell = Cell(counter, 'id_counter')      # batch trackers: the counter shared with the voting threads
+        if driver is None:
+            sort = Cell(mk(P, 'Sort', store=main.value, wasted_store=wasted.value, method=method, opts=Ref(opts),
+                           auto_waste=mk(P, 'AutoWaste', periodicity=awp, counter=awc), track_id=counter), 'sort')
+            counter_after = lambda: fld(P, sort.v, 'Sort', 'track_id')
+        else:
+            counter_after = lambda: counter_cell.v
         # ---- detections
         dets, dinfo = [], []
         for i in range(ndet):
@@ -201,7 +206,12 @@ def mk_step(ndet, nstored, shards=1, aw_zero=False, lite=False, fork=False, maha
                 iou[(i, j)] = SOME(grid_f32(vm, 'iou_%d_%d' % (i, j), [0.125, 0.5, 0.75] if lite else IOUGRID)) if overlap else NONE
         vm.notes.update(far=far, iou=iou, maha=mah, ndet=ndet, nstored=nstored)
         arg = Ref(Cell(VecV(tuple(dets), 'slice'), 'bboxes'))
-        r = vm.exec_fn(fn, [Ref(sort), scene, arg], {})
+        if driver is None:
+            r = vm.exec_fn(fn, [Ref(sort), scene, arg], {})
+        else:
+            # another front end over the same store / options / metric (batch tracker): must satisfy the same oracle
+            r = driver(vm, P, dict(main=main, wasted=wasted, method=method, opts=opts, awp=awp, awc=awc, counter_cell=counter_cell,
+                                   scene=scene, dets=dets, sched=vm.notes['sched'], shards=shards))
         # =================================================================== oracle
         new_epoch = cur + 1
         recs = r.items
@@ -233,7 +243,6 @@ def mk_step(ndet, nstored, shards=1, aw_zero=False, lite=False, fork=False, maha
         assign = []
         new_count = 0
         new_ids = []
-        TRACKER, TRACKER_TY = sort, 'Sort'
         for i, rec in enumerate(recs[:ndet]):
             g = lambda n: fld(P, rec, T, n)
             vm.check(BOOL(_marker(g('observed_bbox')) == 100 + i), "record i echoes detection i's observed box (submission order)")
@@ -257,7 +266,7 @@ def mk_step(ndet, nstored, shards=1, aw_zero=False, lite=False, fork=False, maha
                 new_count += 1
                 # inductive form of "never issued before": every issued id is <= the counter; a new id is above the old
                 # counter, at most the new counter, and differs from the other new ids of this call
-                vm.check(z3.And(z3.UGT(rid.e, counter.e), z3.ULE(rid.e, fld(P, TRACKER.v, TRACKER_TY, 'track_id').e)), "a new track gets an id never issued before (above the old counter, covered by the new one)")
+                vm.check(z3.And(z3.UGT(rid.e, counter.e), z3.ULE(rid.e, counter_after().e)), "a new track gets an id never issued before (above the old counter, covered by the new one)")
                 vm.check(z3.And([rid.e != o for o in new_ids] + [z3.BoolVal(True)]), "new ids of one call are pairwise distinct")
                 new_ids.append(rid.e)
                 vm.check(g('length').e == 1, "a new track has length 1")
@@ -285,8 +294,7 @@ def mk_step(ndet, nstored, shards=1, aw_zero=False, lite=False, fork=False, maha
                 alts.append(z3.Implies(ok, mine >= s))
             vm.check(z3.And(alts), "the continuations form a maximum-weight one-to-one assignment over the gated pairs (unmatched = threshold)")
         # ---- state after the call
-        sv = sort.v
-        vm.check(z3.UGE(fld(P, sv, 'Sort', 'track_id').e, counter.e), "the id counter never goes back")
+        vm.check(z3.UGE(counter_after().e, counter.e), "the id counter never goes back")
         stored_after = {}
         for k, t in main.all_tracks():
             stored_after[k] = t
